@@ -139,10 +139,30 @@ def extra(ck):
     stress_part(ck)
 
 
-def extra_lines(rng, tier):
+def distinct_ts(setup, threads):
+    """Re-stamps the orders a program adds with pairwise distinct timestamps (same range, same order of appearance).
+    The listing a snapshot returns is compared with the model's as a raw string (concprop.model_agrees), and the order of
+    EQUAL timestamps in iter_orders() is DashMap's (random hasher: an oracle), so the snapshot programs avoid ties."""
+    adds = [op for ops in [setup] + threads for op in ops if op.startswith("ADD ")]
+    if not adds:
+        return setup, threads
+    base = min(int(adds[0].split(":")[4]), (1 << 64) - 1 - len(adds))
+    n = [0]
+
+    def stamp(op):
+        if not op.startswith("ADD "):
+            return op
+        f = op.split(":")
+        f[4] = str(base + n[0])
+        n[0] += 1
+        return ":".join(f)
+    return [stamp(op) for op in setup], [[stamp(op) for op in ops] for ops in threads]
+
+
+def extra_lines(rng, tier, snap_flags="drain,mode=O,nomodel"):
     """Programs built around one order: a matcher and an amender / canceller (sometimes two) meet on an Iceberg, Reserve or
     Standard maker, so that the windows between a lookup and the removal, and between a removal and the re-insertion,
-    are hit in every run rather than by luck."""
+    are hit in every run rather than by luck.  [snap_flags]: the flags of the snapshot-reader programs (see below)."""
     from . import gen
     out = []
     for i in range(300 if tier == "quick" else 6000):
@@ -166,19 +186,27 @@ def extra_lines(rng, tier):
         elif x < 0.6:
             threads[1] += ";" + upd()
         out.append("w%d|100|%s|%s|%s%d|drain,mode=O" % (i, ";".join(setup), "#".join(threads), rng.choice("rp"), rng.randint(1, 10 ** 9)))
-    # readers that take a SNAPSHOT (three counter loads + an iteration) while writers are at work.  Model/Conc.v has no
-    # snapshot call, so these programs are judged only (flag `nomodel`): a read must not disturb the conservation.
+    # readers that take a SNAPSHOT (three counter loads + an iteration) while writers are at work: the four-step call
+    # CSnapshot of Model/Conc.v (Properties/C03.v: C03_snapshot_is_pure, C03_snapshot_quiescent_exact,
+    # C03_snapshot_bounded).  C03 runs them with flags "drain,mode=O" (see run below): their traces go through `accept`
+    # like all others and the returned snap:<vis>/<hid>/<cnt>/<listing> is compared with the model's.  The checks that
+    # REUSE these lines (c08.py under the projection proj=map+tk, c12.py) still get them flagged `nomodel` = judged only:
+    # under a projection that does not compare the counter steps, the three counters a snapshot returns are not
+    # determined by the compared events, and concprop.model_agrees compares a `snap:` return as a raw string.
     for i in range(200 if tier == "quick" else 4000):
         g = conc.ProgGen(rng, n_threads=rng.choice([2, 3]), reads=False, nexts=False)
         setup, threads = g.program()
         threads[-1] = ["SNAP"] * rng.choice([1, 1, 2])
-        out.append(conc.prog_line("s%d" % i, g.price, setup, threads, "%s%d" % (rng.choice("rp"), rng.randint(1, 10 ** 9)), "drain,mode=O,nomodel"))
+        setup, threads = distinct_ts(setup, threads)
+        out.append(conc.prog_line("s%d" % i, g.price, setup, threads, "%s%d" % (rng.choice("rp"), rng.randint(1, 10 ** 9)), snap_flags))
     return out
 
 
 def run(tier, seed, replay=None):
     return run_conc_property(
-        "C03", tier, seed, replay, extra_lines=extra_lines,
+        "C03", tier, seed, replay,
+        # the snapshot-reader programs through the model too (CSnapshot): no `nomodel` here
+        extra_lines=lambda rng, tier: extra_lines(rng, tier, snap_flags="drain,mode=O"),
         judges=[("aggregates at quiescence", judge_quiescent_agg),
                 ("per-order conservation", conc.judge_ledger)],
         n_quick=2500, n_thorough=60000, extra_obligations=extra)
